@@ -3,6 +3,7 @@
 mod util;
 mod exec;
 mod mock;
+mod runloop;
 mod c15;
 mod c16;
 mod c17;
@@ -12,6 +13,7 @@ mod gen;
 mod reqfam;
 mod strfam;
 mod asyncfam;
+mod runfam;
 
 use util::*;
 
@@ -44,6 +46,8 @@ fn main() {
         "C01" => reqfam::run_c01(&mut ctx),
         "C06" => reqfam::run_c06(&mut ctx),
         "C02" => strfam::run_c02(&mut ctx),
+        "C07" => runfam::run_c07(&mut ctx),
+        "C08" => runfam::run_c08(&mut ctx),
         "C09" => asyncfam::run_c09(&mut ctx),
         "C10" => asyncfam::run_c10(&mut ctx),
         "C05" => strfam::run_c05(&mut ctx),
